@@ -138,6 +138,9 @@ def execute(scn):
     extra_lead = len([i for i in own if chunk_of[i] == first_chunk and i < obliged[0]])
     sig_base = {'property': ID, 'framing': framing, 'decoder': scn['decoder'], 'garbage': '+'.join(kinds),
                 'per_read': pr, 'policy': scn.get('policy', 'reset')}
+    if scn.get('policy', 'reset') == 'reset' and any(e['chunk'] >= first_chunk for e in res.exceptions):
+        # the receive call raised on a read that already carried obliged frames, and the loop reset the framer
+        sig_base['reset_after_grace'] = True
     # every obliged frame exactly once and in order, nothing else after the first of them: the obliged frames
     # are a SUFFIX of everything this receiver delivered (what it delivered earlier - frames of the grace
     # window, possibly late, because a receive call that raised leaves the rest of its read for the next
@@ -152,8 +155,15 @@ def execute(scn):
                                   'msg': 'after %d garbage bytes (%s) and a grace window of %d bytes, %d of %d obliged valid frames were delivered'
                                   % (g_end, '+'.join(kinds), B, len(got_pdus), len(want))})
     big = max(len(c) for c in chunks) if chunks else 0
+    # a receive call that raises (policy 'keep') hands back control with the rest of its read still buffered,
+    # so every such call may add one read to the backlog for a while: the bound is B + one read + one read
+    # per raising call - transient, and drained by the first call that does not raise.  "Unbounded" is
+    # what exceeds even that, or is still there at the end of the run.
+    tail_from = max(first_chunk, (first_chunk + len(chunks)) // 2)
     worst = max(res.backlog[first_chunk:]) if res.backlog[first_chunk:] else 0
-    if worst > B + big:
+    late = max(res.backlog[tail_from:]) if res.backlog[tail_from:] else 0
+    if worst > B + big * (1 + len(res.exceptions)) or late > B + big:
+        worst = max(worst, late)
         out['violations'].append({'sig': dict(sig_base, **{'class': 'backlog-unbounded'}),
                                   'msg': 'backlog reached %d bytes (> %d) while valid frames kept arriving' % (worst, B + big)})
     out['probes']['exceptions_from_receive'] = len(res.exceptions)
